@@ -3,7 +3,9 @@
 (*  k = "adm": admitted (BOOLEAN) is what parser.Parse + gen.NewGenerator     *)
 (*             said about a parameter with this cfg;                          *)
 (*  k = "val": encoder outcome enc/raw/text/qmap and decoder outcome          *)
-(*             dec/dprim/darr/dobj for value prim/arr/obj under this cfg.     *)
+(*             dec/dprim/darr/dobj for value prim/arr/obj under this cfg;     *)
+(*  k = "dflt": style and explode the parser chose for a parameter whose      *)
+(*             document leaves explode (and, text = <<>>, style) out.         *)
 EXTENDS ParamStyle, ObsLib
 CONSTANT KnownDeviations
 
@@ -16,6 +18,14 @@ Verdict(raw) ==
       c == Cfg(o)
       v == Val(o) IN
   IF o.k = "adm" THEN (IF o.admitted = Admitted(c) THEN "ok" ELSE "drift")
+  \* defaults (OpenAPI 3.0.3, Parameter Object): style by location; explode true for form,
+  \* false for every other style.  o.text = the style the document gave (<<>> = none).
+  ELSE IF o.k = "dflt" THEN
+       (IF o.text = <<>> /\ c.style # DefaultStyle(c.loc) THEN "viol"
+        \* deepObject has one row in the table (explode = true): either reading of its default is admitted
+        ELSE IF c.explode = (c.style = "form") \/ c.style = "deepObject" THEN "ok"
+        ELSE IF "Dev_DefaultExplodeByLocation" \in KnownDeviations /\ c.explode = (c.loc \in {"query", "cookie"}) THEN "known=Dev_DefaultExplodeByLocation"
+        ELSE "viol")
   ELSE IF o.enc = "panic" \/ o.dec = "panic" THEN "viol"          \* W5, whatever the row
   ELSE IF ~Admitted(c) THEN "ok"                                    \* a row the model does not know: only W5
   ELSE IF ~(EncOK(c, v, o) /\ RawOK(c, o)) THEN "viol"
